@@ -31,7 +31,7 @@ import (
 	"sftpcheck/xt/x/refactor/inline"
 )
 
-const maxInlineRounds = 16
+const maxInlineRounds = 40
 
 // loadLight type-checks only the module's own packages (dependencies from export data).
 func loadLight(repo string, cfg BuildConfig, overlay map[string][]byte) (map[string]*packages.Package, error) {
@@ -211,20 +211,67 @@ func deextract(repo string, cfg BuildConfig, ref symTable, overlay map[string][]
 		touched := map[string]bool{}
 		// literals the inliner had to leave are flattened first
 		if changedAny {
+			// several statements of one file are rewritten in one round when their source ranges do not overlap
+			type span struct {
+				s, e int
+				text []byte
+			}
+			perFile := map[string][]span{}
+			overlaps := func(fname string, s0, e0 int) bool {
+				for _, sp := range perFile[fname] {
+					if s0 < sp.e && sp.s < e0 {
+						return true
+					}
+				}
+				return false
+			}
+			for _, site := range findClosureVars(pkgs) {
+				fname, content, err := fileContent(site.pkg.Fset, site.file, prev)
+				if err != nil {
+					continue
+				}
+				fset := site.pkg.Fset
+				ds, de := fset.Position(site.decl.Pos()).Offset, fset.Position(site.decl.End()).Offset
+				us, ue := fset.Position(site.use.Pos()).Offset, fset.Position(site.use.End()).Offset
+				ls, le := fset.Position(site.lit.Pos()).Offset, fset.Position(site.lit.End()).Offset
+				if ds < 0 || de > len(content) || us < de || ue > len(content) || ls < ds || le > de || overlaps(fname, ds, ue) {
+					continue
+				}
+				lit := append([]byte("("), content[ls:le]...)
+				lit = append(lit, ')')
+				// two edits: the declaration disappears, the use becomes the literal; reserve the whole range
+				perFile[fname] = append(perFile[fname], span{ds, de, nil}, span{us, ue, lit}, span{de, us, append([]byte{}, content[de:us]...)})
+			}
 			for _, site := range findIIFEs(pkgs) {
 				fname, content, err := fileContent(site.pkg.Fset, site.file, prev)
-				if err != nil || touched[fname] {
+				if err != nil {
+					continue
+				}
+				so, eo := site.pkg.Fset.Position(site.stmt.Pos()).Offset, site.pkg.Fset.Position(site.stmt.End()).Offset
+				if so < 0 || eo > len(content) || so >= eo || overlaps(fname, so, eo) {
 					continue
 				}
 				text := flattenOne(site)
 				if text == "" {
 					continue
 				}
-				so, eo := site.pkg.Fset.Position(site.stmt.Pos()).Offset, site.pkg.Fset.Position(site.stmt.End()).Offset
-				if so < 0 || eo > len(content) || so >= eo {
-					continue
+				perFile[fname] = append(perFile[fname], span{so, eo, []byte(text)})
+			}
+			for fname, spans := range perFile {
+				content := prev[fname]
+				if content == nil {
+					b, rerr := os.ReadFile(fname)
+					if rerr != nil {
+						continue
+					}
+					content = b
 				}
-				ov[fname] = append(append(append([]byte{}, content[:so]...), []byte(text)...), content[eo:]...)
+				sort.Slice(spans, func(i, j int) bool { return spans[i].s > spans[j].s })
+				out := append([]byte{}, content...)
+				for _, sp := range spans {
+					out = append(out[:sp.s:sp.s], append(append([]byte{}, sp.text...), out[sp.e:]...)...)
+				}
+				ov[fname] = out
 				touched[fname] = true
 				progress = true
 				lastRound = append(lastRound, "flatten")
@@ -386,6 +433,7 @@ type iifeSite struct {
 	tok   token.Token // DEFINE, ASSIGN, or ILLEGAL for an expression statement / RETURN for a return statement
 	isRet bool
 
+	tail    bool          // nothing follows the statement in its function but a return of plain names
 	ifInit  *ast.IfStmt   // the literal is called in the init statement of this if
 	spawn   *ast.CallExpr // go/defer statement calling a literal with arguments
 	spawnKw string
@@ -406,11 +454,35 @@ func findIIFEs(pkgs map[string]*packages.Package) []iifeSite {
 			continue
 		}
 		for _, f := range pk.Syntax {
-			visit := func(list []ast.Stmt) {
-				for _, st := range list {
+			visit := func(list []ast.Stmt, top bool) {
+				for i, st := range list {
 					if ls, ok := st.(*ast.LabeledStmt); ok {
 						st = ls.Stmt
 					}
+					// in tail position of its function: nothing follows but one return of plain names or constants
+					tail := top
+					if tail {
+						rest := list[i+1:]
+						switch len(rest) {
+						case 0:
+						case 1:
+							r, ok := rest[0].(*ast.ReturnStmt)
+							if !ok {
+								tail = false
+								break
+							}
+							for _, e := range r.Results {
+								switch ast.Unparen(e).(type) {
+								case *ast.Ident, *ast.BasicLit:
+								default:
+									tail = false
+								}
+							}
+						default:
+							tail = false
+						}
+					}
+					n0 := len(out)
 					switch s := st.(type) {
 					case *ast.AssignStmt:
 						if len(s.Rhs) == 1 && (s.Tok == token.DEFINE || s.Tok == token.ASSIGN) {
@@ -421,6 +493,11 @@ func findIIFEs(pkgs map[string]*packages.Package) []iifeSite {
 					case *ast.ExprStmt:
 						if fl := iife(s.X); fl != nil {
 							out = append(out, iifeSite{pkg: pk, file: f, stmt: s, lit: fl})
+						} else if ce, ok := ast.Unparen(s.X).(*ast.CallExpr); ok && len(ce.Args) > 0 {
+							// func(p T){…}(a): the arguments are bound first, the bare literal call is flattened next round
+							if fl, ok := ast.Unparen(ce.Fun).(*ast.FuncLit); ok {
+								out = append(out, iifeSite{pkg: pk, file: f, stmt: s, lit: fl, spawn: ce, spawnKw: ""})
+							}
 						}
 					case *ast.ReturnStmt:
 						if len(s.Results) == 1 {
@@ -444,16 +521,24 @@ func findIIFEs(pkgs map[string]*packages.Package) []iifeSite {
 							out = append(out, iifeSite{pkg: pk, file: f, stmt: s, lit: fl, spawn: s.Call, spawnKw: "defer"})
 						}
 					}
+					for k := n0; k < len(out); k++ {
+						out[k].tail = tail
+					}
 				}
 			}
+			topBodies := map[*ast.BlockStmt]bool{}
 			ast.Inspect(f, func(n ast.Node) bool {
 				switch x := n.(type) {
+				case *ast.FuncDecl:
+					if x.Body != nil {
+						topBodies[x.Body] = true
+					}
 				case *ast.BlockStmt:
-					visit(x.List)
+					visit(x.List, topBodies[x])
 				case *ast.CaseClause:
-					visit(x.Body)
+					visit(x.Body, false)
 				case *ast.CommClause:
-					visit(x.Body)
+					visit(x.Body, false)
 				}
 				return true
 			})
@@ -536,6 +621,9 @@ func bindSpawnArgs(site iifeSite) string {
 		}
 	}
 	fmt.Fprintf(&out, "%s func()%s %s()\n}\n", site.spawnKw, res, bb.String())
+	if site.spawnKw == "" && res != "" {
+		return "" // a plain call statement that discards results: leave it
+	}
 	return out.String()
 }
 
@@ -553,8 +641,14 @@ func flattenOne(site iifeSite) string {
 	bad := false
 	ast.Inspect(lit.Body, func(n ast.Node) bool {
 		switch x := n.(type) {
+		case *ast.FuncLit:
+			return false // its defers, returns and recovers are its own
 		case *ast.DeferStmt:
-			bad = true
+			// a deferred call of the literal runs when the literal returns; flattened, when the enclosing function
+			// returns — the same moment when nothing but a return of plain names follows the literal's call
+			if !(site.tail && site.ifInit == nil) {
+				bad = true
+			}
 		case *ast.BranchStmt:
 			if x.Tok == token.GOTO {
 				bad = true
@@ -800,4 +894,113 @@ func flattenOne(site iifeSite) string {
 
 func printNode(w io.Writer, fset *token.FileSet, n any) error {
 	return (&printer.Config{Mode: printer.UseSpaces | printer.TabIndent, Tabwidth: 8}).Fprint(w, fset, n)
+}
+
+// ---- a function literal bound to a local variable that is called once ----
+//
+// `var f func() = func() {…}` … `f()` (what the inliner leaves of a function-valued parameter) is the call of the
+// literal itself: the variable is dropped and the literal is called where the variable was.
+
+type closureVarSite struct {
+	pkg  *packages.Package
+	file *ast.File
+	decl ast.Stmt
+	lit  *ast.FuncLit
+	use  *ast.Ident
+}
+
+func findClosureVars(pkgs map[string]*packages.Package) []closureVarSite {
+	var out []closureVarSite
+	for path, pk := range pkgs {
+		if !strings.HasPrefix(path, pkgSftp) || strings.Contains(path, "/examples/") || pk.TypesInfo == nil {
+			continue
+		}
+		info := pk.TypesInfo
+		for _, f := range pk.Syntax {
+			// uses per object
+			uses := map[types.Object][]*ast.Ident{}
+			callFun := map[*ast.Ident]bool{}
+			ast.Inspect(f, func(n ast.Node) bool {
+				switch x := n.(type) {
+				case *ast.Ident:
+					if o := info.Uses[x]; o != nil {
+						uses[o] = append(uses[o], x)
+					}
+				case *ast.CallExpr:
+					if id, ok := ast.Unparen(x.Fun).(*ast.Ident); ok {
+						callFun[id] = true
+					}
+				}
+				return true
+			})
+			consider := func(st ast.Stmt, name *ast.Ident, val ast.Expr) {
+				lit, ok := ast.Unparen(val).(*ast.FuncLit)
+				if !ok || name.Name == "_" {
+					return
+				}
+				obj := info.Defs[name]
+				if obj == nil {
+					return
+				}
+				us := uses[obj]
+				if len(us) != 1 || !callFun[us[0]] {
+					return
+				}
+				if us[0].Pos() >= lit.Pos() && us[0].End() <= lit.End() {
+					return // recursion through the variable
+				}
+				if us[0].Pos() < st.End() {
+					return
+				}
+				out = append(out, closureVarSite{pk, f, st, lit, us[0]})
+			}
+			ast.Inspect(f, func(n ast.Node) bool {
+				var list []ast.Stmt
+				switch x := n.(type) {
+				case *ast.BlockStmt:
+					list = x.List
+				case *ast.CaseClause:
+					list = x.Body
+				case *ast.CommClause:
+					list = x.Body
+				}
+				for _, st := range list {
+					switch x := st.(type) {
+					case *ast.AssignStmt:
+						if x.Tok == token.DEFINE && len(x.Lhs) == 1 && len(x.Rhs) == 1 {
+							if id, ok := x.Lhs[0].(*ast.Ident); ok {
+								consider(st, id, x.Rhs[0])
+							}
+						}
+					case *ast.DeclStmt:
+						if gd, ok := x.Decl.(*ast.GenDecl); ok && gd.Tok == token.VAR && len(gd.Specs) == 1 {
+							if vs, ok := gd.Specs[0].(*ast.ValueSpec); ok && len(vs.Names) == 1 && len(vs.Values) == 1 {
+								consider(st, vs.Names[0], vs.Values[0])
+							}
+						}
+					}
+				}
+				return true
+			})
+		}
+	}
+	return out
+}
+
+// applyClosureVar returns the file content with the variable dropped and the literal called in its place.
+func applyClosureVar(site closureVarSite, content []byte) []byte {
+	fset := site.pkg.Fset
+	ds, de := fset.Position(site.decl.Pos()).Offset, fset.Position(site.decl.End()).Offset
+	us, ue := fset.Position(site.use.Pos()).Offset, fset.Position(site.use.End()).Offset
+	ls, le := fset.Position(site.lit.Pos()).Offset, fset.Position(site.lit.End()).Offset
+	if ds < 0 || de > len(content) || us < de || ue > len(content) || ls < ds || le > de {
+		return nil
+	}
+	lit := append([]byte("("), content[ls:le]...)
+	lit = append(lit, ')')
+	out := append([]byte{}, content[:ds]...)
+	out = append(out, content[de:us]...)
+	out = append(out, lit...)
+	out = append(out, content[ue:]...)
+	return out
 }
